@@ -76,4 +76,4 @@ def impl(arg):
 
 def units(ctx):
     cs = [] if getattr(ctx, "replay_only", False) else cases(ctx.rng, ctx.thorough)
-    return [Unit("flow.semantics", "pysem.run", cs, impl)]
+    return [Unit("flow.semantics", "pysem.run", cs, impl), Unit("flow.semantics.mut", "pysem.run_mut", cs, impl)]
